@@ -170,6 +170,38 @@ def eval_finiteness(t: Term, kinds: dict) -> bool | None:
         fn = n[1]
         if fn[0] == "builtin" and fn[1] == "bool" and n[2]:
             return eval_finiteness(n[2][0], kinds)
+        if fn in (G("numpy.all"), G("numpy.any")) and n[2] and n[2][0][0] == "binop" and n[2][0][1] in ("&", "|"):
+            # element-wise combination of two finiteness masks: whether some index has
+            # both (or either) finite depends on how the finite entries line up
+            a, b = n[2][0][2], n[2][0][3]
+
+            def kind_of(x):
+                neg_ = False
+                if x[0] == "unary" and x[1] == "~":
+                    x, neg_ = x[2], True
+                if x[0] == "call" and x[1] in (G("numpy.isfinite"), G("numpy.isinf")) and x[2]:
+                    which = "lower" if ends_with_attrs(x[2][0], "lower_bounds") else ("upper" if ends_with_attrs(x[2][0], "upper_bounds") else None)
+                    if which is None:
+                        return None
+                    k_ = kinds[which]
+                    fin = (x[1] == G("numpy.isfinite")) != neg_
+                    if not fin:
+                        k_ = {"all": "none", "none": "all", "mixed": "mixed"}[k_]
+                    return k_
+                return None
+
+            ka, kb = kind_of(a), kind_of(b)
+            if ka is None or kb is None:
+                return None
+            if fn == G("numpy.any") and n[2][0][1] == "|":
+                return ka != "none" or kb != "none"
+            if fn == G("numpy.any") and n[2][0][1] == "&":
+                # guaranteed only when one side is all-true and the other has a true entry
+                return (ka == "all" and kb != "none") or (kb == "all" and ka != "none")
+            if fn == G("numpy.all") and n[2][0][1] == "&":
+                return ka == "all" and kb == "all"
+            if fn == G("numpy.all") and n[2][0][1] == "|":
+                return ka == "all" or kb == "all"
         if fn in (G("numpy.all"), G("numpy.any")) and n[2]:
             inner = n[2][0]
             neg_ = False
@@ -270,3 +302,16 @@ def c13_4(ctx: Ctx) -> RuleResult:
     # violations are not copied over as differences: asdict includes them -> the constructor must recompute (fields default None, post_init overwrites)
     res.floor = 4
     return res
+
+
+# --------------------------------------------------------------------- C13.5
+@rule(P)
+def c13_5(ctx: Ctx) -> RuleResult:
+    """A result is feasible iff every violation is within the tolerance (shared with C12.3)."""
+    from .c12 import c12_3
+
+    r = c12_3(ctx)
+    for i in r.instances:
+        i.rule = "C13.5"
+    r.rule, r.title = "C13.5", "a result is treated as feasible iff every reported violation is within the tolerance"
+    return r
